@@ -11,7 +11,7 @@ DECIDING = ["M-GAMMA", "M-GAMMA-COUNT", "M-GAMMA-SAMPLE", "M-GAMMA-RECOMPUTE", "
 LEVEL = "exploration"
 RULE = ("seeded random small continua (2-4 annotators, labelled) x n_samples 1..40 x precision (none / numeric chosen "
         "so that N_required falls below, on and above n_samples / named levels when affordable) x sampler "
-        "(statistical, shuffle int/float pivot) x ground-truth subsets (>= 2) x mode (exact, fast, soft); a counting "
+        "(statistical, shuffle int/float pivot) x ground-truth subsets (>= 2; handed over as list, tuple, set, sorted set, dict view or generator) x mode (exact, fast, soft); a counting "
         "proxy around the sampler records a content snapshot of every sample handed out; the post-condition M-GAMMA "
         "checks observed disorder, number of chance alignments, draws == alignments kept, alignment i built on the "
         "i-th sample drawn (content), samples valid, each chance alignment recomputed in the "
@@ -220,6 +220,25 @@ def check_gamma(ctx, case, continuum, dissim, sampler, res, gt):
                 ctx.fail("gamma-not-1-for-identical-annotators", {"gamma": g, "observed": obs}, monitor="M-GAMMA-IDENTICAL")
 
 
+def _gt_form(gt, form):
+    """The ground-truth annotators in one of the forms an 'iterable of annotators' can take."""
+    gt = list(gt)
+    if form == "tuple":
+        return tuple(gt)
+    if form == "set":
+        return set(gt)
+    if form == "generator":
+        return (a for a in gt)
+    if form == "keys":
+        return dict.fromkeys(gt).keys()
+    if form == "sortedset":
+        from sortedcontainers import SortedSet
+        return SortedSet(gt)
+    if form == "reversed":
+        return gt[::-1]
+    return gt
+
+
 def run_gamma(case, continuum, dissim, precision):
     sampler = counting_sampler(case["sampler"])
     gt = case.get("ground_truth")
@@ -233,7 +252,7 @@ def run_gamma(case, continuum, dissim, precision):
     off = {"none": None, "zero": 0, "npbool": np.bool_(False)}.get(at.get("off"), False)
     on = {"one": 1, "npbool": np.bool_(True)}.get(at.get("on"), True)
     res = continuum.compute_gamma(dissim, n_samples=case["n_samples"], precision_level=precision,
-                                  ground_truth_annotators=None if gt is None else list(gt), sampler=sampler,
+                                  ground_truth_annotators=None if gt is None else _gt_form(gt, at.get("gt")), sampler=sampler,
                                   fast=on if case["mode"] == "fast" else off, soft=on if case["mode"] == "soft" else off)
     return res, sampler
 
@@ -392,7 +411,8 @@ def gen_case(ctx, dspecs):
     if target:
         case["target_N"] = target
     case["arg_types"] = {"precision": rng.choice(["float", "float", "float64", "float32"]),
-                         "off": rng.choice(["false", "false", "none", "zero", "npbool"]), "on": rng.choice(["true", "true", "one", "npbool"])}
+                         "off": rng.choice(["false", "false", "none", "zero", "npbool"]), "on": rng.choice(["true", "true", "one", "npbool"]),
+                         "gt": rng.choice(["list", "list", "tuple", "set", "generator", "keys", "sortedset", "reversed"])}
     if n >= 3 and rng.random() < 0.35:
         # session: the same sampler and continuum objects serve several computations
         calls = []
@@ -431,6 +451,16 @@ def run(ctx):
         cs0 = cases.gen_continuum(rng, n_annot=3, sizes=[4, 3, 4], family="longoverlap", labels=cases.LABELS_SMALL)
         case = {"continuum": cs0, "dissim": comb0, "n_samples": 4, "precision": "auto", "target_N": 11.0, "sampler": "statistical",
                 "mode": mode, "ground_truth": None, "np_seed": 21 + k0, "identical": False, "arg_types": at}
+        ctx.begin_case(case)
+        ctx.observe("mode", "deterministic-first-block(argument forms)")
+        check_case(ctx, case)
+    # ... the ground-truth annotators as a generator / set / dict view (an 'iterable of annotators')
+    for k0, form in enumerate(["generator", "set", "keys", "reversed"]):
+        cs0 = cases.gen_continuum(rng, n_annot=3, sizes=[3, 3, 2], family="grid", labels=cases.LABELS_SMALL)
+        names0 = sorted(cs0["ann"].keys())
+        case = {"continuum": cs0, "dissim": comb0, "n_samples": 3, "precision": None, "sampler": ["statistical", "shuffle_float"][k0 % 2],
+                "mode": "exact", "ground_truth": [names0[2], names0[0]] if k0 < 3 else names0, "np_seed": 41 + k0, "identical": False,
+                "arg_types": {"gt": form}}
         ctx.begin_case(case)
         ctx.observe("mode", "deterministic-first-block(argument forms)")
         check_case(ctx, case)
